@@ -4,6 +4,7 @@ import (
 	"fmt"
 	"go/ast"
 	"go/constant"
+	"go/token"
 	"go/types"
 	"strings"
 )
@@ -23,6 +24,8 @@ func init() {
 
 func checkC05(c *Ctx) {
 	checkC05ArcTypes(c)
+	checkC05ConjunctIdentity(c)
+	checkC05RecursiveClosedness(c)
 	f := c.fn(adtP, "(*nodeContext).checkTypos")
 	g := c.graph(f)
 	info := f.Info()
@@ -242,4 +245,130 @@ func checkC05ArcTypes(c *Ctx) {
 		{name: "let", truth: map[string]bool{h: false, d: false, l: true}, want: []string{"true"}, sub: true},
 		{name: "regular", truth: map[string]bool{h: false, d: false, l: false}, want: []string{"false"}, sub: true},
 	}, "hidden, definition and let labels are never restricted by closedness; every other label is")
+}
+
+// checkC05ConjunctIdentity: a conjunct is an expression *in an environment*.
+// The two places that drop a conjunct as a duplicate of one already present
+// (Vertex.findConjunct and nodeContext.insertConstraint, for pattern
+// constraints) must compare both: the same `[string]: >=lo & <=hi` reached
+// through two instantiations carries different bounds, and dropping the second
+// as a duplicate leaves matching fields checked against the first only.
+func checkC05ConjunctIdentity(c *Ctx) {
+	n := 0
+	for _, f := range c.funcs(c.pkg(adtP)) {
+		info := f.Info()
+		isConjunctX := func(e ast.Expr) (string, bool) {
+			sel, ok := ast.Unparen(e).(*ast.SelectorExpr)
+			if !ok || sel.Sel.Name != "x" {
+				return "", false
+			}
+			t := info.TypeOf(sel.X)
+			if t == nil {
+				return "", false
+			}
+			if nt, ok := t.(*types.Named); ok && nt.Obj().Name() == "Conjunct" {
+				return exprString(sel.X), true
+			}
+			return "", false
+		}
+		k := 0
+		var visit func(cond ast.Expr, pos token.Pos)
+		visit = func(cond ast.Expr, pos token.Pos) {
+			var a, b string
+			ast.Inspect(cond, func(x ast.Node) bool {
+				if be, ok := x.(*ast.BinaryExpr); ok && be.Op == token.EQL {
+					if l, ok1 := isConjunctX(be.X); ok1 {
+						if r, ok2 := isConjunctX(be.Y); ok2 {
+							a, b = l, r
+						}
+					}
+				}
+				return true
+			})
+			if a == "" {
+				return
+			}
+			env := false
+			ast.Inspect(cond, func(x ast.Node) bool {
+				switch y := x.(type) {
+				case *ast.CallExpr:
+					if s := exprString(y.Fun); (s == a+".Env.Equal" || s == b+".Env.Equal") && len(y.Args) >= 1 {
+						env = true
+					}
+				case *ast.BinaryExpr:
+					if y.Op == token.EQL && strings.HasSuffix(exprString(y.X), ".Env") && strings.HasSuffix(exprString(y.Y), ".Env") {
+						env = true
+					}
+				}
+				return true
+			})
+			n++
+			k++
+			c.check("dedup.conjunct-identity-includes-environment", fmt.Sprintf("%s#%d", f.Name, k), pos, env,
+				"two conjuncts are the same only if expression and environment are the same: a duplicate test `"+a+".x == "+b+".x` must also compare the environments ("+a+".Env.Equal(ctx, "+b+".Env))")
+		}
+		ast.Inspect(f.Body, func(x ast.Node) bool {
+			if is, ok := x.(*ast.IfStmt); ok {
+				visit(is.Cond, is.Pos())
+			}
+			return true
+		})
+	}
+	c.expect("dedup.conjunct-identity-includes-environment", 2)
+}
+
+// checkC05RecursiveClosedness: when an embedded definition closes the struct
+// literal that embeds it, the requirement of that struct is activated
+// (`ignore = false`). If the embedded definition is recursively closed the
+// activated requirement must be marked recursive in the same step, otherwise
+// the enclosing struct is closed one level deep only (like close()) and
+// accepts undeclared fields below an allowed field.
+func checkC05RecursiveClosedness(c *Ctx) {
+	f := c.fn(adtP, "(*nodeContext).addResolver")
+	cf := newCaseFn(c, f)
+	activate, mark := -1, -1
+	for _, n := range cf.g.Nodes {
+		as, ok := n.N.(*ast.AssignStmt)
+		if !ok || len(as.Lhs) != 1 || len(as.Rhs) != 1 {
+			continue
+		}
+		l := exprString(as.Lhs[0])
+		switch {
+		case strings.HasSuffix(l, ".ignore") && strings.HasPrefix(l, "n.reqDefIDs[") && exprString(as.Rhs[0]) == "false":
+			if activate < 0 { // the first one: the walk up the chain of outer structs
+				activate = n.ID
+			}
+		case strings.HasSuffix(l, ".isRecursive") && strings.HasPrefix(l, "n.reqDefIDs[") && exprString(as.Rhs[0]) == "true":
+			mark = n.ID
+		}
+	}
+	var rec string
+	for k := range cf.atoms() {
+		if k == "p1.ClosedRecursive" {
+			rec = k
+		}
+	}
+	ok := activate >= 0 && mark >= 0 && rec != ""
+	det := fmt.Sprintf("activation found=%v, recursive mark found=%v, test of v.ClosedRecursive found=%v", activate >= 0, mark >= 0, rec != "")
+	if ok {
+		_, visT := cf.walkBlocked(activate, map[string]bool{rec: true}, map[int]bool{mark: true})
+		_, visF := cf.walk(activate, map[string]bool{rec: false})
+		// with a recursively closed definition no path may leave the activation step without the mark:
+		// blocked walk from the activation must not reach the loop's next iteration or the exit
+		head := cf.loopHead(0)
+		reachedNext := false
+		for _, e := range cf.g.Nodes[activate].Succs {
+			r, _ := func() (map[int]bool, bool) {
+				_, v := cf.walkBlocked(e.To, map[string]bool{rec: true}, map[int]bool{mark: true})
+				return v, true
+			}()
+			if e.To != mark && ((head >= 0 && r[head]) || r[cf.g.Exit]) {
+				reachedNext = true
+			}
+		}
+		ok = visT[mark] && !reachedNext && !visF[mark]
+		det = fmt.Sprintf("marked when the embedded definition is recursively closed=%v, never skipped=%v, not marked otherwise=%v", visT[mark], !reachedNext, !visF[mark])
+	}
+	c.check("closedness.recursive-flag-propagated", f.Name, f.Decl.Pos(), ok,
+		"when addResolver activates the requirement of an enclosing struct literal for an embedded definition, it must mark it recursive iff the definition is recursively closed (v.ClosedRecursive): "+det)
 }
